@@ -52,7 +52,17 @@ func c03Gen(rng *verifsim.RNG, idx int, tier string) *Plan {
 		p.Class = "edge"
 		// Put boundary strings into one to three duration keys.
 		for k, kn := 0, rng.Range(1, 3); k < kn; k++ {
-			switch rng.Intn(7) {
+			switch rng.Intn(8) {
+			case 7:
+				// the advertisement intervals: everything derived from them (the
+				// default router lifetime, the NAT64 lifetime) has to fit its field too
+				s.MaxInterval = sp([]string{"3s", "4s", "1800s", "1801s", "2h", "6h", "7h", "65535s", "65536s", "18h12m15s", "infinite", "0.5s"}[rng.Intn(12)])
+				if rng.Bool(0.5) {
+					s.MinInterval = nil
+				}
+				if rng.Bool(0.7) {
+					s.DefaultLifetime = []*string{nil, sp("auto")}[rng.Intn(2)]
+				}
 			case 0, 1:
 				if len(s.Prefixes) == 0 {
 					s.Prefixes = append(s.Prefixes, PrefixSpec{Prefix: sp("2001:db8:99::/64")})
